@@ -80,7 +80,10 @@ Inductive apireq :=
 | AParticipants (l : list apiuser)
 | AInCall (l : list apiuser)
 | AInCallAll (incall : N)
-| AMessage (tag : N).
+| AMessage (tag : N)
+(* "dialout": start a call to a phone number. ok = the request passes the checks made before a client is
+   looked for (E.164 number, numeric room id); the room of the op is the number the room id spells *)
+| ADialout (ok : bool).
 
 Inductive internalreq :=
 | IAdd (v room user : N) (flags incall : option N)
@@ -126,8 +129,13 @@ Inductive smsg :=
 | SRoomDeleted
 | SRoomlist (k : N)
 | SPart (all : N)
+(* a participants update as a client reads it: the room it is for and the signaling session ids its user list
+   names, sorted.  The model sends SPart (which sessions an update lists is not modelled); the list is judged by
+   the trace predicates only (corr/Hub_preds.v part_ok) *)
+| SPartL (all room : N) (ids : list N)
 | SFlags (sid flags : N)
 | STransient (k key : N)
+| SDialout (room : N)                          (* "internal"/"dialout": the request handed to a dial-out client *)
 | SOther (k : N).
 
 (* error codes / bye reasons: indices into the harness's tables *)
@@ -969,6 +977,7 @@ Definition room_request (h : hub) (k : N * N) (q : apireq) : hub * list out :=
             end
       | AMessage tag => (publish h (SubjRoom (fst k) (snd k)) (AEvent (SRoomMsg tag) 0 false), [])
       | ADisinvite _ _ => (h, [])
+      | ADialout _ => (h, [])
       end
   end.
 
@@ -1040,6 +1049,17 @@ Definition deliver_at (h : hub) (pos : nat) : hub * list out :=
   end.
 
 (* ------------------------------------------------------------------ room API (authenticated request) *)
+(* Hub.GetDialoutSession: a session of the dial-out list (internal clients that announced "start-dialout"
+   and are in no room) that belongs to THE REQUEST'S BACKEND and has a connection.  The server walks a Go
+   map, so with several such sessions of one backend the choice is not determined; the model takes the
+   first in list order, and the generators keep at most one connected dial-out client per backend. *)
+Definition dialout_ok (h : hub) (b sid : N) : bool :=
+  match get_sess h sid with
+  | Some s => N.eqb s.(s_backend) b && match s.(s_conn) with Some _ => true | None => false end
+  | None => false
+  end.
+Definition dialout_session (h : hub) (b : N) : option N := find (dialout_ok h b) h.(h_dialout).
+
 Definition do_api (h : hub) (b room : N) (q : apireq) : hub * list out :=
   let k := (b, room) in
   match q with
@@ -1067,6 +1087,19 @@ Definition do_api (h : hub) (b room : N) (q : apireq) : hub * list out :=
                                            | _, _ => hh end) l' h in
           (publish h1 (SubjBackendRoom b room) (ARoomReq (AParticipants l')), [])
       end
+  | ADialout ok =>
+      (* BackendServer.startDialout: refused before anybody is asked when the number or the room id is
+         malformed; 404 when the backend has no dial-out client; otherwise the request is written to that
+         client and the call waits for its answer.  The driver's dial-out clients accept at once; their
+         answer ("status: accepted", naming no room) is then handled like any dial-out status: published as
+         a transient-data request on the backend-room subject of the room it names - none, nobody listens *)
+      if negb ok then (h, [])
+      else match dialout_session h b with
+           | None => (h, [])
+           | Some sid =>
+               let '(h1, outs) := send_session h sid (SDialout room) in
+               (publish h1 SubjNobody (ARoomReq (ADialout true)), outs)
+           end
   end.
 
 (* ------------------------------------------------------------------ housekeeping *)
